@@ -723,7 +723,11 @@ func fillHashHelper(r interface{}, depth int, env *Zlisp, preferSym bool) (Sexp,
 		}
 		if reflect.ValueOf(st).Type() == reflect.ValueOf(r).Type() {
 			//Q("we have a registered struct match for st=%T and r=%T", st, r)
-			retHash, err := MakeHash([]Sexp{}, hashName, env)
+			// name the record by the type's registered name, not by the
+			// registry key under which this walk happened to meet it first
+			// (a type is registered under several keys, and Go's map
+			// iteration order is random).
+			retHash, err := MakeHash([]Sexp{}, factory.RegisteredName, env)
 			if err != nil {
 				return SexpNull, fmt.Errorf("MakeHash '%s' problem: %s",
 					hashName, err)
